@@ -238,6 +238,7 @@ func (fr *frame) callStatic(fn *ssa.Function, args []Val, argTypes []types.Type,
 			if ct != nil {
 				fr.assumeInvs(ct, fn.Signature, args, argTypes, st, alive, vc.eng.pkgOfFn(fn))
 			}
+			vc.nextCallPos = pos
 			res, out, retReach := vc.execFunc(fn, args, st, alive, fr.depth+1, nil)
 			fr.setState(st, out)
 			return tupleOf(res, fn.Signature.Results().Len()), retReach
